@@ -19,8 +19,12 @@ def gen_map_op(rng, n_jobs, rich=True, small=False):
     if inp == 'gen':
         if rng.random() < .6 or ('chunk_size' not in op):
             op['iterable_len'] = rng.choice([n, n, max(0, n - rng.randint(0, 3))])
-    elif rng.random() < .15:
+    elif rng.random() < .2:
         op['iterable_len'] = rng.choice([n, max(0, n - rng.randint(0, 3))])
+        if inp == 'nd' and n > 0 and rng.random() < .4:
+            # for numpy input an iterable_len that OVER-estimates the array is clamped to the number of rows (for other inputs the
+            # call fails with ValueError when the announced and the real number of tasks differ: not a valid call)
+            op['iterable_len'] = n + rng.randint(1, 6)
     if rng.random() < .3:
         op['max_tasks_active'] = rng.choice([1, 2, 3, rng.randint(1, 12)])
     if rng.random() < .35:
